@@ -5,6 +5,7 @@ R7.1 driver table: with recovery on, an Error action calls recover once, pushes 
 R7.2 the time budget only shrinks and bounds the deadline; every loop of the recovery cone is deadline-tested, iterator
      driven, counter-bounded or consuming
 R7.3 every failing exit of recover returns (the input index it was given, no repairs)
+R7.5 the cost-bucket list of the search is long enough for a neighbour's cost when it is indexed with it (any token costs)
 R7.4 success criterion of the search: three trailing REAL shifts (Repair(Shift) / Merge(Shift,_)) or Accept
 """
 from mirlib import *
@@ -277,7 +278,110 @@ def r74(facts, res):
     c05.r52(facts, res, 'R7.4')
 
 
+def r75(facts, res):
+    """"a parse always returns": the search indexes its list of cost buckets with a neighbour's cost right after making room for
+    it.  On every path from the top of the neighbour loop to that index, the length the list was just given (Vec::resize(v, n):
+    n; Vec::push: +1) exceeds the index - with ANY token costs, not only when every cost is 1 (linear bounds domain A10)."""
+    R = 'R7.5'
+    import linarith as LA
+    bs = [x for x in facts.lib_bodies(['lrpar']) if strip_generics(x.path) == 'lrpar::dijkstra::dijkstra']
+    if len(bs) != 1:
+        res.lost(R, 'lrpar::dijkstra::dijkstra not found')
+        return
+    b = bs[0]
+    loops = b.loops()
+    buckets = [l for l, ty in enumerate(b.locals) if ty['ty'].startswith('alloc::vec::Vec<indexmap::map::IndexMap<') and b.name_of(l)]
+    if len(buckets) != 1:
+        res.lost(R, 'cannot identify the bucket list of dijkstra (%d candidates)' % len(buckets))
+        return
+    V = buckets[0]
+    sites = []
+    for bb, t in b.calls():
+        if cname(t) in ('index', 'index_mut') and t['args'] and b.op_root(t['args'][0])[0] == V:
+            inl = [h for h in loops if bb in loops[h]]
+            if len(inl) >= 2:       # inside a neighbour loop (nested in the main loop)
+                sites.append((bb, t, min(inl, key=lambda h: len(loops[h]))))
+    if not sites:
+        res.lost(R, 'no indexing of the bucket list inside a neighbour loop found')
+        return
+    for bb, t, h in sites:
+        key = 'bucket-exists@L%d' % sites.index((bb, t, h))
+        w = widening_walker(b, facts)
+        w.widen_headers = set(loops) - {h}
+        w.widen_assigned = {x: loop_assigned(b, x) for x in w.widen_headers}
+        ps = [p for p in w.run(h, stop=lambda x: x == t['ret'] or x not in loops[h]) if any(e[0] == 'call' and e[1] == bb for e in p.events)]
+        if w.overflow or not ps:
+            res.lost(R, 'cannot enumerate the paths to the bucket index')
+            continue
+        why = None
+        for p in ps:
+            L0 = LA.Lin({('LEN0',): 1})
+            def with_len(term, cur):
+                # linear form of term with every len(bucket list) replaced by the current symbolic length
+                def sub(x):
+                    if isinstance(x, tuple) and x and x[0] == 'call' and strip_generics(x[1]).split('::')[-1] == 'len' and x[2] \
+                            and term_has(x[2][0], lambda y: y == ('uninit', V) or (isinstance(y, tuple) and len(y) > 1 and y[0] == 'mutated' and y[1] == (V, ()))):
+                        return ('LENPH',)
+                    if isinstance(x, tuple):
+                        return tuple(sub(y) if isinstance(y, tuple) else y for y in x)
+                    return x
+                L = LA.lin(sub(term))
+                c = L.c.pop(('LENPH',), 0) if ('LENPH',) in L.c else 0
+                out = LA.Lin(L.c, L.k)
+                if c:
+                    out = out + cur.scale(c)
+                return out
+            cur = L0
+            idx = None
+            for e in p.events:
+                if e[0] != 'call' or not e[2]:
+                    continue
+                tt = b.term(e[1])
+                if not tt['args'] or b.op_root(tt['args'][0])[0] != V:
+                    continue
+                nm = e[2]['name']
+                if nm == 'resize':
+                    cur = with_len(e[3][1], cur)
+                elif nm == 'push':
+                    cur = cur.plus(1)
+                elif nm in ('truncate', 'clear', 'drain', 'pop', 'remove', 'swap_remove'):
+                    cur = LA.Lin({('LEN?', e[1]): 1})
+                elif e[1] == bb:
+                    idx = e[3][1]
+            ctx = LA.Ctx()
+            import c19
+            for c, v in p.conds:
+                if c[0] == 'bin' and isinstance(v, int):
+                    # comparisons that mention len(bucket list) are about the length at loop top
+                    A, B = with_len(c[2], L0), with_len(c[3], L0)
+                    op = c[1] if v else {'Eq': 'Ne', 'Ne': 'Eq', 'Lt': 'Ge', 'Ge': 'Lt', 'Le': 'Gt', 'Gt': 'Le'}.get(c[1])
+                    if op == 'Eq':
+                        ctx.add_eq(A - B)
+                    elif op == 'Ne':
+                        ctx.add_ne(A - B)
+                    elif op == 'Lt':
+                        ctx.add_ge((B - A).plus(-1))
+                    elif op == 'Le':
+                        ctx.add_ge(B - A)
+                    elif op == 'Gt':
+                        ctx.add_ge((A - B).plus(-1))
+                    elif op == 'Ge':
+                        ctx.add_ge(A - B)
+            ob = (cur - with_len(idx, L0)).plus(-1)
+            ctx.nonneg_atoms(ctx.ge + ctx.ne + [ob])
+            ctx.saturate()
+            if not ctx.proves(ob):
+                why = 'on the path through blocks %s the bucket list has length %s when it is indexed with %s: not shown to be enough (a neighbour whose cost is more than one above the ' \
+                      'last bucket - any token cost above 1 - indexes out of bounds and the parse panics inside recovery)' % (p.blocks[-8:], cur.show()[:60], fmt_term(idx)[:50])
+                break
+        if why:
+            res.bad(R, key, loc_of(b, bb), why)
+        else:
+            res.ok(R, key, loc_of(b, bb), 'the bucket list is given a length above the cost before it is indexed with it (%d paths)' % len(ps))
+
+
 def run(facts, res):
+    r75(facts, res)
     r74(facts, res)
     r71(facts, res)
     r72(facts, res)
